@@ -105,9 +105,11 @@ Theorem C16_parents_first :
 Proof. exact parents_first. Qed.
 Print Assumptions C16_parents_first.
 
-(* after-rule as add_after_statements establishes it, for every lookup (self references included):
-   the first step whose sf_object is the target comes strictly earlier, or the lookup carries
-   `after:` naming the last such step. *)
+(* after-rule as add_after_statements establishes it, for every lookup (self references included;
+   lookups to the pseudo table PersonContact are skipped by the code): the first step that loads
+   the target TABLE comes strictly earlier, or the lookup carries `after:` naming the last such
+   step.  (Steps are indexed by table since fix commit ae07041; before it they were indexed by
+   sf_object, which let a PersonContact step stand in for the Contact step - former finding K16a.) *)
 Theorem C16_after_rule :
   forall tpls deps decls ms pre name m post l,
     mapping_from_recipe tpls deps decls = Ok ms -> ms = pre ++ (name, m) :: post ->
@@ -117,61 +119,31 @@ Theorem C16_after_rule :
 Proof. exact after_rule. Qed.
 Print Assumptions C16_after_rule.
 
-(* ... hence, when a single step has the target as sf_object: it is earlier or named by `after`. *)
-Theorem C16_after_rule_single :
+(* ... hence the property's wording, unconditionally: when the target table is loaded by a single
+   step, that step is earlier or it is the one named by `after`. *)
+Theorem C16_after_rule_by_table :
   forall tpls deps decls ms pre name m post l prej namej mj postj,
     mapping_from_recipe tpls deps decls = Ok ms -> ms = pre ++ (name, m) :: post ->
     In l (m_lookups m) -> lk_table l <> "PersonContact" ->
-    ms = prej ++ (namej, mj) :: postj -> m_sf_object mj = lk_table l ->
-    (forall nm, In nm prej \/ In nm postj -> m_sf_object (snd nm) <> lk_table l) ->
-    length prej < length pre \/ lk_after l = Some namej.
-Proof. exact after_rule_single. Qed.
-Print Assumptions C16_after_rule_single.
-
-(* The property's wording ("the target table is loaded by a single step", i.e. by TABLE):
-     forall ..., ms = prej ++ (namej, mj) :: postj -> m_table mj = lk_table l ->
-       (no other step has that table) -> length prej < length pre \/ lk_after l = Some namej
-   is FALSE for recipes with both a PersonContact and a Contact table (finding K16a:
-   _index_by_sobject keys on sf_object, lookups name tables, the PersonContact step has sf_object
-   Contact) — refuted below; it is proved for recipes without a table called PersonContact. *)
-Theorem C16_after_rule_by_table_partial :
-  forall tpls deps decls ms pre name m post l prej namej mj postj,
-    (forall tp, In tp tpls -> has_space (tp_table tp) = false) ->
-    (forall tp, In tp tpls -> tp_table tp <> "PersonContact") ->
-    mapping_from_recipe tpls deps decls = Ok ms -> ms = pre ++ (name, m) :: post ->
-    In l (m_lookups m) ->
     ms = prej ++ (namej, mj) :: postj -> m_table mj = lk_table l ->
     (forall nm, In nm prej \/ In nm postj -> m_table (snd nm) <> lk_table l) ->
     length prej < length pre \/ lk_after l = Some namej.
-Proof. exact after_rule_by_table. Qed.
-Print Assumptions C16_after_rule_by_table_partial.
+Proof. exact after_rule_single. Qed.
+Print Assumptions C16_after_rule_by_table.
 
+(* regression of K16a on its old witness (PersonContact first, cycle A <-> Contact): the lookup
+   A.c -> Contact now carries `after: Insert Contact` *)
 Definition k16a_tpls : list ftpl :=
   [mkTpl "PersonContact" None ["name"]; mkTpl "A" None ["c"]; mkTpl "Contact" None ["a"]].
 Definition k16a_deps : list dep := [mkDep "A" "Contact" "c"; mkDep "Contact" "A" "a"].
 
-Theorem C16_after_rule_by_table_refuted :
-  exists ms pre name m post l prej namej mj postj,
-    mapping_from_recipe k16a_tpls k16a_deps [] = Ok ms /\ ms = pre ++ (name, m) :: post /\
-    In l (m_lookups m) /\ lk_table l <> "PersonContact" /\
-    ms = prej ++ (namej, mj) :: postj /\ m_table mj = lk_table l /\
-    (forall nm, In nm prej \/ In nm postj -> m_table (snd nm) <> lk_table l) /\
-    ~ (length prej < length pre \/ lk_after l = Some namej).
-Proof.
-  eexists. exists [("Insert PersonContact",
-                    mkStep "Contact" "PersonContact" [("name", "name")] [] [] None None [])].
-  exists "Insert A". eexists. eexists. exists (mkLk "c" "Contact" None).
-  exists [("Insert PersonContact",
-           mkStep "Contact" "PersonContact" [("name", "name")] [] [] None None []);
-          ("Insert A", mkStep "A" "A" [] [mkLk "c" "Contact" None] [] None None [])].
-  exists "Insert Contact". eexists. exists [].
-  split; [vm_compute; reflexivity|]. split; [reflexivity|].
-  split; [left; reflexivity|]. split; [discriminate|]. split; [reflexivity|]. split; [reflexivity|].
-  split.
-  - intros nm [[H|[H|[]]]|[]]; subst nm; cbn; discriminate.
-  - cbn. intros [H|H]; [inversion H as [|? H1]; inversion H1 as [|? H2]; inversion H2|discriminate].
-Qed.
-Print Assumptions C16_after_rule_by_table_refuted.
+Example C16_ex_k16a_repaired :
+  mapping_from_recipe k16a_tpls k16a_deps []
+  = Ok [("Insert PersonContact",
+         mkStep "Contact" "PersonContact" [("name", "name")] [] [] None None []);
+        ("Insert A", mkStep "A" "A" [] [mkLk "c" "Contact" (Some "Insert Contact")] [] None None []);
+        ("Insert Contact", mkStep "Contact" "Contact" [] [mkLk "a" "A" None] [] None None [])].
+Proof. vm_compute. reflexivity. Qed.
 
 (* ---- history independence ---- *)
 
